@@ -4,7 +4,7 @@ from pyvc.contracts import Registry
 
 def build():
     R = Registry()
-    from . import theory, c_cropping_batch, c_cropping_reap, c_stats, c_runner, c_prepare, c_labels, c_cropping_grow
+    from . import theory, c_cropping_batch, c_cropping_reap, c_stats, c_runner, c_prepare, c_labels, c_cropping_grow, c_cropping_progress
     theory.install(R)
     c_cropping_batch.install(R)
     c_cropping_reap.install(R)
@@ -21,6 +21,12 @@ def build():
     c_labels.install_to_ds(R)
     c_labels.install_wrappers(R)
     c_cropping_grow.install(R)
+    c_cropping_grow.install_sow(R)
+    c_cropping_grow.install_sow2(R)
+    c_cropping_grow.install_sow3(R)
+    c_cropping_grow.install_c04_lemma(R)
+    c_cropping_progress.install(R)
+    c_cropping_progress.install_lemmas(R)
     # calls dropped as no-ops (DESIGN 2.2) -- every dropped call site is listed in the evidence
     R.inert |= {"print", "warnings.warn", "progbar", "time.sleep", "logger.setLevel", "logging.getLogger",
                 "sys.stderr.flush"}
